@@ -460,7 +460,7 @@ func gen(r *vlib.R, n int, tier string, emit func(string)) {
 		emit(fmt.Sprintf("srv new %s %s", cfgArgs(cfg), vlib.B(withCache)))
 		var pool []aQ
 		for k := 0; k < per; k++ {
-			entry := vlib.Pick(r, []string{"rawudp", "rawudp", "rawtcp", "inline", "msgdoh", "msgdoq", "http", "sockudp", "sockudp", "socktcp", "socktcp"})
+			entry := vlib.Pick(r, []string{"rawudp", "rawudp", "rawtcp", "inline", "msgdoh", "msgdoq", "http", "sockudp", "sockudp", "socktcp", "socktcp", "sockdoq"})
 			if r.Chance(1, 5) {
 				emit(fmt.Sprintf("srv raw %s %s %s", vlib.Pick(r, []string{"sockudp", "socktcp"}), vlib.Hex(genMalformed(r)), plainR))
 				continue
